@@ -6,11 +6,10 @@ from . import paths as P
 
 EXPLANATION = (
     "Decides structural necessary conditions of C18 from MIR: (R1) Store::new_impl runs run_migrations (all four, in order) "
-    "before a Store value exists and propagates its error; (R2) sibling agreement: migration 004 and entry_put build the by-key "
+    "before a Store value exists and propagates its error; (R2) sibling agreement by abstract evaluation over an abstract records table: migration 004 and entry_put build the by-key "
     "id with the same permutation (namespace,key,author) of the records id, RecordsByKeyRange::next_filtered inverts it, "
-    "migration 001 and entry_put write (namespace,author)->(timestamp,key); and every record visited by a populate loop "
-    "reaches the insert (no path from the loop item to the next iteration bypasses it); (R3) migration 001 replaces the kept "
-    "head iff the new timestamp is not Less; (R4) each populate migration returns Skip when its target is non-empty and "
+    "migration 001 and entry_put write (namespace,author)->(timestamp,key) and keep the same head (ties included); every record "
+    "visited by a populate loop, deletion markers included, reaches the insert; (R4) each populate migration returns Skip when its target is non-empty and "
     "run_migration commits only on Execute. NOT decided: equality of answers for arbitrary table contents."
 )
 ASSUMPTIONS = ["redb transactions are atomic; an uncommitted WriteTransaction is rolled back on drop"]
